@@ -1,6 +1,6 @@
 From Coq Require Import ZArith List Bool Reals Lra.
 From Flocq Require Import Core BinarySingleNaN.
-Require Import GV.FloatBase GV.FloatLemmas GV.AngleM GV.AngleProofs GV.GeonumM GV.GeonumProofs GV.NewProofs GV.CtorProofs GV.ClosureProofs GV.SumUpper GV.PiBounds GV.TrigProofs GV.DotValue GV.DistValue GV.DirProofs GV.SumDir GV.ProdProofs GV.CartCtor GV.Atan2Ideal.
+Require Import GV.FloatBase GV.FloatLemmas GV.AngleM GV.AngleProofs GV.GeonumM GV.GeonumProofs GV.NewProofs GV.CtorProofs GV.ClosureProofs GV.SumUpper GV.PiBounds GV.TrigProofs GV.DotValue GV.DistValue GV.DirProofs GV.SumDir GV.ProdProofs GV.CartCtor GV.Atan2Ideal GV.RealPi.
 Open Scope R_scope.
 Require Import GV.Properties.C02.
 Check C02_fast_path : forall k, (0 <= k < 2 ^ 53)%Z -> new (of_Z k) two = {| rem := zero; blade := k |}.
@@ -72,3 +72,13 @@ Check C02_new_direction : forall p d, fast_path p d = false ->
 Print Assumptions C02_new_direction.
 Check C02_atan2_premise_inhabited : exists L : libm, atan2_acc L (/ 1125899906842624).
 Print Assumptions C02_atan2_premise_inhabited.
+Check C02_total_real_pi : forall p d, fin (total_angle p d) -> bpow radix2 (-500) <= Rabs (R_ d) ->
+  Rabs (R_ (total_angle p d) - R_ p * Rtrigo1.PI / R_ d)
+    <= 5 / 10000000000000000 * Rabs (R_ (total_angle p d)) + bpow radix2 (-570).
+Print Assumptions C02_total_real_pi.
+Check C02_new_real_pi : forall p d, fast_path p d = false ->
+  fin (total_angle p d) -> Rabs (R_ (total_angle p d)) <= bpow radix2 42 -> bpow radix2 (-500) <= Rabs (R_ d) ->
+  exists J : Z, (0 <= J)%Z /\
+    Rabs (dirR (new p d) - (R_ p * Rtrigo1.PI / R_ d + 2 * Rtrigo1.PI * IZR J))
+      <= R_ eps10 + 3 / 100000000000000 + Rabs (R_ (total_angle p d)) * (2 / 1000000000000000).
+Print Assumptions C02_new_real_pi.
